@@ -59,4 +59,8 @@ theorem readJSONValue_first (key pre v post : Bytes) (hk : key ≠ [])
   rw [this, hq]
   simp
 
+/-- `time.RFC3339Nano`, the layout `readQLogTimestamp` parses with (the driver's
+`parseTime` implements the fixed-day UTC part of it). -/
+def rfc3339NanoLayout : Bytes := [50, 48, 48, 54, 45, 48, 49, 45, 48, 50, 84, 49, 53, 58, 48, 52, 58, 48, 53, 46, 57, 57, 57, 57, 57, 57, 57, 57, 57, 90, 48, 55, 58, 48, 48]
+
 end AGH.C20
